@@ -157,11 +157,16 @@ impl Ctx {
     /// A fresh path in this worker's private directory (on /dev/shm).
     pub fn fresh_path(&mut self, stem: &str) -> PathBuf {
         self.file_counter += 1;
-        match self.name_style {
-            1 => self.tmpdir.join(format!("{stem}{}-ünïcödé-名前がとても長いファイルの名前é.json", self.file_counter)),
-            2 => self.tmpdir.join(format!("{stem}{},part two.json", self.file_counter)),
-            _ => self.tmpdir.join(format!("{stem}{}.json", self.file_counter)),
-        }
+        self.tmpdir.join(styled_name(self.name_style, stem, self.file_counter))
+    }
+}
+
+/// A file name in one of the three naming styles of a scenario.
+pub fn styled_name(style: u8, stem: &str, k: u32) -> String {
+    match style {
+        1 => format!("{stem}{k}-ünïcödé-名前がとても長いファイルの名前é.json"),
+        2 => format!("{stem}{k},part two.json"),
+        _ => format!("{stem}{k}.json"),
     }
 }
 
@@ -257,6 +262,7 @@ pub fn case_spec(case: &Case, input: &[u8]) -> RunSpec {
         hash_seed: case.hash_seeds.first().copied(),
         max_events: if case.param("max_events") > 0 { case.param("max_events") as usize } else { 400_000 },
         files: Vec::new(),
+        dirs: Vec::new(),
     }
 }
 
@@ -447,4 +453,124 @@ impl Ctx {
         std::fs::create_dir_all(&d).ok()?;
         Some(d)
     }
+}
+
+/// How the files of a scenario are spread over directory arguments whose listings the
+/// simulator owns (hook H3).
+pub struct DirLayout {
+    /// what the command line names
+    pub args: Vec<String>,
+    /// path of file i
+    pub paths: Vec<String>,
+    /// every simulated directory: its path and its entries (full paths) in layout order
+    pub dirs: Vec<(String, Vec<String>)>,
+}
+
+/// layout 1: one directory argument holding all files; 2: file 0 as a plain argument, then a
+/// directory with the rest; 3: a directory holding file 0 and a sub-directory with the rest;
+/// 4: two directory arguments (first half, second half); anything else: as 1.
+/// The directories are created (really: jawk asks the file system whether an argument is a
+/// directory); the files are placeholders that `run` creates.
+pub fn lay_out(root: &str, n: usize, layout: i64, style: u8) -> DirLayout {
+    let name = |i: usize| styled_name(style, "f", i as u32);
+    let mut args = Vec::new();
+    let mut paths = Vec::new();
+    let mut dirs: Vec<(String, Vec<String>)> = Vec::new();
+    match layout {
+        2 if n >= 2 => {
+            let p0 = format!("{root}/{}", name(0));
+            let d = format!("{root}/d");
+            args.push(p0.clone());
+            args.push(d.clone());
+            paths.push(p0);
+            let mut e = Vec::new();
+            for i in 1..n {
+                let p = format!("{d}/{}", name(i));
+                e.push(p.clone());
+                paths.push(p);
+            }
+            dirs.push((d, e));
+        }
+        3 if n >= 2 => {
+            let d = format!("{root}/d");
+            let sub = format!("{d}/sub");
+            args.push(d.clone());
+            let p0 = format!("{d}/{}", name(0));
+            paths.push(p0.clone());
+            let mut e = Vec::new();
+            for i in 1..n {
+                let p = format!("{sub}/{}", name(i));
+                e.push(p.clone());
+                paths.push(p);
+            }
+            dirs.push((d, vec![p0, sub.clone()]));
+            dirs.push((sub, e));
+        }
+        4 if n >= 2 => {
+            let h = n.div_ceil(2);
+            for (k, range) in [(0, 0..h), (1, h..n)] {
+                let d = format!("{root}/d{k}");
+                args.push(d.clone());
+                let mut e = Vec::new();
+                for i in range {
+                    let p = format!("{d}/{}", name(i));
+                    e.push(p.clone());
+                    paths.push(p);
+                }
+                dirs.push((d, e));
+            }
+        }
+        _ => {
+            let d = format!("{root}/d");
+            args.push(d.clone());
+            let mut e = Vec::new();
+            for i in 0..n {
+                let p = format!("{d}/{}", name(i));
+                e.push(p.clone());
+                paths.push(p);
+            }
+            dirs.push((d, e));
+        }
+    }
+    for (d, _) in &dirs {
+        let _ = std::fs::create_dir_all(d);
+    }
+    DirLayout { args, paths, dirs }
+}
+
+/// The entries of a directory in the order its plan lists them.
+pub fn listed(entries: &[String], plan: Option<&DirPlan>) -> Vec<String> {
+    let mut out: Vec<String> = Vec::new();
+    let mut used = vec![false; entries.len()];
+    if let Some(p) = plan {
+        for &i in &p.order {
+            if i < entries.len() && !used[i] {
+                used[i] = true;
+                out.push(entries[i].clone());
+            }
+        }
+    }
+    for (i, e) in entries.iter().enumerate() {
+        if !used[i] {
+            out.push(e.clone());
+        }
+    }
+    out
+}
+
+/// A run of the case on simulated files inside simulated directories (hooks H2 and H3).
+pub fn sim_layout_spec(case: &Case, lay: &DirLayout, datas: &[Vec<u8>], plans: &[FilePlan], dirplans: &[DirPlan]) -> RunSpec {
+    let mut spec = sim_args_spec(case, &lay.args, &lay.paths, datas, plans);
+    spec.dirs = lay
+        .dirs
+        .iter()
+        .enumerate()
+        .map(|(j, (path, entries))| DirSrc {
+            path: path.clone(),
+            entries: listed(entries, dirplans.get(j)),
+            open_fails: dirplans.get(j).and_then(|p| p.open_fails),
+            entry_fault: dirplans.get(j).and_then(|p| p.entry_fault.clone()),
+        })
+        .collect();
+    spec
 }
